@@ -62,7 +62,7 @@ def main():
                      "kind_free_text": "Lean 4 model (Model/*.lean), proofs (Proofs/*.lean), native driver; Python harness runs the real compiler in-process"}],
         "checks": checks,
         "not_applicable": na,
-        "notes": "fix: commits in /repo: a01be8e (F01 export version), e0d3eba (F04 literal folding), c5d3578 (F11 zero variable step), 2bc1bf8 (F21 pump/power-switch enable), a88e301 (F25 0/1 input treated as boolean), bafefc3 (F33 constant expression after ':')",
+        "notes": "fix: commits in /repo, oldest first (each a minimal unguarded repair of a genuine defect; suite 1907 passed + the 2 baseline root-permission failures after each; the defect, its minimal input and the commit are in KNOWN_FINDINGS.json 'fixed', the reverse patch of each is a seeded change under seeded/R_Fnn): a01be8e (export blueprints in the 2.0 format the emitter stamps on them); e0d3eba (fold constant expressions used as the value of a signal literal); c5d3578 (reject a zero for-loop step given through an int variable); 2bc1bf8 (apply enable conditions to entities without a circuit_enabled flag); a88e301 (do not treat a user-declared 0/1 constant as a boolean in && and ||); bafefc3 (keep a constant expression after ':' as the decider's output constant); 06e67d6 (a decider with a constant output other than 0/1 is not a boolean producer); 370c2a3 (do not fold a projection into a decider that copies its output from the input); 820fc8d (do not inline a comparison into an enable condition when a later operation also consumes i); 5348ea8 (emit a comparison with a constant on the left as the mirrored comparison); 9768cb5 (a memory declared in a function body is a separate cell per call site); 21bf4ef (names declared in a loop body no longer replace outer bindings after the loop); 06b483b (do not fold a projection into a value that a parameter or an existing operation still read); a4b1aef (retype a write-enable comparison to signal-W only when nothing else can see it); 218c2f7 (an inlined function body no longer sees the caller's parameters and locals); 05203d3 (a memory declared with an explicit type keeps it when another scope declares the same name); 3a03f97 (a planned wire longer than the wire reach fails the layout attempt instead of being emitte); 58cb7fc (keep a power pole whose supply area reaches an entity's box, not only its centre); 97d6728 (a reset-priority latch turns off when set and reset are both active); c6d4e49 (every kind of reader follows a node that CSE or constant propagation replaced); c702bdc (CSE keeps a copy-mode decider apart from a constant-mode decider with the same condition); f2295aa (a reset-priority latch gives its reset signal the same latency as its set signal); ec234c6 (untyped values are not given a signal name the program itself writes); be58e20 ('cond : <integer>' inside a function takes the call site's type of the left operand); 99e8278 (a folded && / || chain inside a function takes the call site's operand type)",
     }
     with open(os.path.join(VERIF, "MANIFEST.json"), "w") as f:
         json.dump(m, f, indent=1)
